@@ -1341,6 +1341,11 @@ func ruleC17NoSecondDecoding(c *Ctx) {
 					return
 				}
 				key := core.CalleeKey(call.Common())
+				if key == "net/url.QueryUnescape" {
+					bad++
+					c.R.Bad(rule, core.FuncName(fn)+":"+key, c.pos(i), "the resolver decodes (part of) a reference with url.QueryUnescape, which also turns '+' into a space: \"#/$defs/a+b\" would select the key \"a b\"; fragments are decoded by net/url's parser (or PathUnescape)")
+					return
+				}
 				if key != "net/url.PathUnescape" && key != "net/url.QueryUnescape" || len(call.Common().Args) == 0 {
 					return
 				}
